@@ -82,7 +82,7 @@ CHECKS = {
                  "(hard-link groups straddling included/excluded paths) + Receive: STAT log vs filterWalk + reset model, executable closure check of link names, "
                  "destination = filtered view (C01 spec); Walk vs Open agreement on every regular file; FollowPaths configurations end to end (suite followsend)."),
         "note": ("Trusted: Lean kernel + standard axioms; the canonical-listing hypothesis of reset_closed is what fs.Walk delivers (C09) and is checked by execution per case "
-                 "(linksClosed on the real STAT log); nested filter stacks are not generated yet. Known finding F5."),
+                 "(linksClosed on the real STAT log); nested filter stacks (a second NewFilterFS on top) are generated and modelled by composing filterWalk. Known finding F5."),
     },
     "C20": {
         "text": ("Lean theorems (unbounded) about the TRANSCRIBED generated code: unmarshalStat (marshalStat s) = ok s for every well-formed Stat "
